@@ -23,7 +23,10 @@ TRUSTED = ["scipy.optimize.isotonic_regression (mean functional) is outside the 
            "numpy lexsort / quantile / interp / unique are modelled by hand (Model/Isotonic.lean), tied by correspondence",
            "bootstrap resampling (numpy global RNG) is not modelled: lower<=upper and fixed-seed reproducibility are observed"]
 ASSUMPTIONS = ["forecasts / observations / weights are small dyadic rationals or NaN (float + - * and comparisons exact); "
-               "means compared to 1e-9", "infinite inputs are not generated", "float rounding is not modelled"]
+               "means compared to 1e-9", "infinite inputs are not generated", "float rounding is not modelled",
+               "storage dtypes (int64 / int32 / int16 / int8 / uint8 / uint16 / float32 / bool, mixed per operand) hold exactly "
+               "representable values; the expected fit is that of the VALUES (the Lean model / spec have no storage dtype); "
+               "float32 observations on the quantile / custom-solver path are compared to 4e-6 (the code fits them in float32)"]
 MANIFEST = dict(
     level="proof",
     text="Kernel-checked Lean theorems about a hand model of isoreg_impl.py (joint NaN removal, stable sort by forecast ascending / "
@@ -42,7 +45,11 @@ MANIFEST = dict(
          "arithmetic on the reported bootstrap matrix); the property oracle compares the real isotonic_fit with the exact max-min "
          "formula over the distinct forecasts (Lean Spec, rational arithmetic, independent of PAV and of the sort) exhaustively on all "
          "short sequences over a 3x3 pool and on random cases, and checks order / shape / container / memory-layout / NaN invariance, bounds, "
-         "weighted-mean preservation, counts, block = solver(block), lower <= upper and fixed-seed reproducibility.",
+         "weighted-mean preservation, counts, block = solver(block), lower <= upper and fixed-seed reproducibility. "
+         "STORAGE DTYPES: the same values stored as int64 / int32 / int16 / int8 / uint8 / uint16 / float32 / mixed numpy and xarray "
+         "operands (integer counts, 0/1 events with probability forecasts; exhaustively every short sequence over the 3x3 pool) must give "
+         "the exact max-min fit of the values (non-integer block means), the same result as their float64 copies, and, for a fixed seed, "
+         "the same bootstrap fits and bands as the float64 copies; a bool operand is rejected (ValueError) or fitted exactly.",
     note="Trusted: Lean kernel; propext/Classical.choice/Quot.sound; the hand model (no translator for this property) and the harness; "
          "scipy.optimize.isotonic_regression (used by the code for the mean functional) is OUTSIDE the proof — the PAV model with the "
          "weighted-mean solver is tied to it only by the correspondence check. Proved for the mean functional with positive weights "
@@ -51,13 +58,19 @@ MANIFEST = dict(
          "Bootstrap resampling uses numpy's global RNG and is not modelled: the band arithmetic is modelled on the matrix the code reports "
          "(lower <= upper proved there), reproducibility for a fixed seed is observed, not proved. "
          "Custom solvers are assumed to be the identity on a single observation (notes/C15.md, interpretation). Infinite inputs, dtype "
-         "checks and float rounding are not modelled; quantile levels sent to the model are dyadic.",
+         "checks and float rounding are not modelled; quantile levels sent to the model are dyadic. Storage dtypes are not modelled "
+         "(the model is a function of the values): that input class is compared by the oracle; three dtype defect classes of the "
+         "unchanged code (notes/C15.md: integer obs on the solver path, unsigned obs with a 0 in a tie group, non-float64/int64 "
+         "forecasts with a tied smallest forecast) are tagged, listed as known findings and skipped in the correspondence.",
     technique="Lean 4 theorems over a hand-written executable model + differential correspondence + exact max-min oracle",
     design="6/C15")
 RULE = ("pairs (fcst, obs[, weight]) drawn from small dyadic pools with heavy ties and NaN in every slot, arranged as numpy / xarray "
         "arrays of 1-3 dims (xarray operands with permuted dims / shuffled coordinates; square / cubic shapes; fcst, obs and weight each "
         "stored with its own memory layout: C, Fortran / transposed view, axis-permuted, strided a[::k], reversed a[::-1] views), functional mean / quantile / 11 custom solvers; "
-        "exhaustive: every sequence up to a length over a 3-value pool; distinct = distinct canonical case; "
+        "each operand stored as float64 or (35 % of the random cases + dedicated streams) as int64 / int32 / int16 / int8 / uint8 / uint16 / "
+        "float32 / bool with values exactly representable there (integer counts, 0/1 events with k/8 probability forecasts), mixed per operand; "
+        "exhaustive: every sequence up to a length over a 3-value pool, once as float64 and once in integer / float32 / mixed dtypes; "
+        "distinct = distinct canonical case; "
         "non-trivial = at least two valid pairs")
 
 NAN = float("nan")
@@ -95,12 +108,113 @@ def py_solver(kind, weighted):
 
 # ------------------------------------------------------------------------------------------------ cases
 def mk_case(f, o, w=None, kind="mean", q=0.5, shape=None, container="numpy", perm=None, boots=None, seed=0,
-            confidence=0.75, min_non_nan=1, layout=None):
+            confidence=0.75, min_non_nan=1, layout=None, dtypes=None):
     n = len(f)
     return {"fcst": [float(x) for x in f], "obs": [float(x) for x in o], "weight": None if w is None else [float(x) for x in w],
             "kind": kind, "q": float(q), "shape": list(shape) if shape else [n], "container": container,
             "perm": perm, "bootstraps": boots, "seed": seed, "confidence": float(confidence), "min_non_nan": int(min_non_nan),
-            "layout": layout}
+            "layout": layout, "dtypes": dtypes}
+
+
+# ------------------------------------------------------------------------------------------------ storage dtypes
+# The VALUES of a case are the floats in case["fcst"/"obs"/"weight"]; case["dtypes"] = {"f","o","w"} only says in which numpy
+# dtype each operand is STORED when handed to isotonic_fit (every value is exactly representable there: integers for the
+# integer dtypes, 0/1 for bool, small dyadics for float32).  The expected result depends on the values only.
+INT_DTYPES = ["int64", "int32", "int16", "int8", "uint8", "uint16"]
+UNSIGNED = ("uint8", "uint16")
+FLOAT_DTYPES = ["float64", "float32"]
+
+
+def dtype_of(case, k):
+    return ((case.get("dtypes") or {}).get(k)) or "float64"
+
+
+def is_int_dtype(dt):
+    return dt in INT_DTYPES
+
+
+def fits_dtype(v, dt):
+    if dt in FLOAT_DTYPES:
+        return True                                    # NaN and the small dyadics are exact in float32 / float64
+    if math.isnan(v) or v != int(v):
+        return False
+    if dt == "bool":
+        return v in (0.0, 1.0)
+    info = np.iinfo(dt)
+    return max(info.min, -info.max) <= v <= info.max   # (the minimum of a signed type is never generated: -min overflows)
+
+
+def dtype_class(case):
+    if not case.get("dtypes"):
+        return "dtype:all-float64"
+    ops = ["f", "o"] + (["w"] if case["weight"] is not None else [])
+    ds = [dtype_of(case, k) for k in ops]
+    if "bool" in ds:
+        return "dtype:bool-operand"
+    if all(d == "float64" for d in ds):
+        return "dtype:all-float64"
+    return "dtype:uniform-" + ds[0] if len(set(ds)) == 1 else "dtype:mixed"
+
+
+def unsigned_zero_in_tie(case):
+    """an unsigned observation array in which some group of tied forecasts (valid pairs) holds a 0 and a non-zero value"""
+    if dtype_of(case, "o") not in UNSIGNED:
+        return False
+    groups = {}
+    for p in valid_pairs(case):
+        groups.setdefault(p[0], set()).add(p[1])
+    return any(0.0 in g and len(g) > 1 for g in groups.values())
+
+
+def narrow_dtype_interp(case):
+    """scipy's interp1d takes its np.interp path only when x and y are float64 / int64 arrays; otherwise its own linear
+    formula divides 0/0 at the smallest x when that x is repeated (or is the only point).  isotonic_fit builds
+    interp1d(fcst_tidied, y_out): x has the forecast dtype, y is float64 except on the _contiguous_ir path with float32
+    observations.  True iff that path is taken AND (the smallest valid forecast is tied / there is one valid pair, or
+    the case bootstraps: every resample builds such an interpolant and ties at its smallest forecast arise at random)"""
+    narrow = dtype_of(case, "f") not in ("float64", "int64") or (case["kind"] != "mean" and dtype_of(case, "o") == "float32")
+    if not narrow:
+        return False
+    fs = [p[0] for p in valid_pairs(case)]
+    return bool(fs) and (bool(case.get("bootstraps")) or fs.count(min(fs)) >= 2 or len(fs) == 1)
+
+
+DEFECT_TAGS = ("int_obs_solver_path", "unsigned_obs_zero_in_tie", "narrow_dtype_interp_nan")
+
+
+def dtype_defect(case):
+    """the case lies in one of the three documented dtype defect classes of the unchanged code: the model (values only, no
+    storage dtypes) does not describe the code there, so the correspondence skips it; the property oracle still runs it
+    and reports it (as the listed known finding)"""
+    # the three defects F-C15a/b/c were repaired in /repo (fix: isotonic_fit works in floating point): nothing is skipped any
+    # more — the classes stay tagged so that a regression is reported as a violation of exactly that class
+    return False
+
+
+def case_tags(case):
+    """tags of every failure of this case; the last three single out the three documented dtype defects of the unchanged
+    code (notes/C15.md, "Findings: storage dtypes") so that a known-finding entry matches exactly those inputs"""
+    t = {"kind": case["kind"], "container": case["container"]}
+    if case.get("dtypes"):
+        t["obs_dtype"] = dtype_of(case, "o")
+        if (is_int_dtype(dtype_of(case, "o"))) and case["kind"] != "mean":
+            t["int_obs_solver_path"] = True
+        if unsigned_zero_in_tie(case):
+            t["unsigned_obs_zero_in_tie"] = True
+        if narrow_dtype_interp(case):
+            t["narrow_dtype_interp_nan"] = True
+    return t
+
+
+def tol_of(case):
+    """float32 observations on the _contiguous_ir path (quantile / custom solver) are fitted IN float32 (y_out = y.copy()):
+    the block values carry float32 rounding (2^-24 relative) — rounding is not modelled, so compare those to 4e-6;
+    everything else (in particular the mean functional for every dtype) to 1e-9"""
+    if dtype_of(case, "o") == "float32" and case["kind"] != "mean":
+        return 4e-6
+    if case["kind"] != "mean" and case["weight"] is not None and dtype_of(case, "w") == "float32" and dtype_of(case, "o") != "float64":
+        return 4e-6
+    return 1e-9
 
 
 def valid_pairs(case):
@@ -174,6 +288,12 @@ def build_inputs(case):
     f = np.array(case["fcst"], dtype=float).reshape(shape)
     o = np.array(case["obs"], dtype=float).reshape(shape)
     w = None if case["weight"] is None else np.array(case["weight"], dtype=float).reshape(shape)
+    if case.get("dtypes"):                             # storage dtype of each operand; the values stay the same
+        for k, a in (("f", f), ("o", o), ("w", w)):
+            assert a is None or all(fits_dtype(float(v), dtype_of(case, k)) for v in a.ravel()), (k, dtype_of(case, k))
+        f = f.astype(dtype_of(case, "f"))
+        o = o.astype(dtype_of(case, "o"))
+        w = None if w is None else w.astype(dtype_of(case, "w"))
     permuted = case["container"] == "xarray-permuted" and case.get("perm")
     f = relayout(f, lay.get("f"))
     if not permuted:                                  # (permuted: the layout applies to the dim-permuted backing array)
@@ -245,7 +365,66 @@ def spec_op(case):
                                        "weight": None if case["weight"] is None else [core.fl_str(x) for x in case["weight"]]}}
 
 
-def gen_case(rng, kinds, big=False, boots=False):
+def store_as(rng, vals, dt, den, weight=False):
+    """the values of one operand made exactly representable in storage dtype `dt` (order and ties of the operand kept:
+    integer dtypes hold den*v, shifted to start at 0 for unsigned; bool holds v > 0); NaN cannot be stored in an integer
+    array, so a NaN slot gets a value (NaN pairs still arise from the float operands of the case)"""
+    if dt in FLOAT_DTYPES:
+        return list(vals)
+    if weight:
+        return [1.0] * len(vals) if dt == "bool" else [float(rng.choice([1, 1, 2, 3, 5])) for _ in vals]
+    fin = [v for v in vals if not math.isnan(v)] or [0.0]
+    vals = [rng.choice(fin) if math.isnan(v) else v for v in vals]
+    if dt == "bool":
+        cut = rng.choice(fin)
+        return [1.0 if v > cut or (v == cut and rng.random() < 0.5) else 0.0 for v in vals]
+    out = [float(round(v * den)) for v in vals]
+    if dt in UNSIGNED:
+        lo = min(out)
+        out = [v - lo for v in out]
+    return out
+
+
+def gen_dtypes(rng, weighted, kind="mean"):
+    """storage dtypes of (fcst, obs, weight): integer observations (counts, 0/1 events) with float / integer forecasts, one
+    integer / float32 dtype for everything, independent mixtures, rarely a bool operand (documented: rejected).
+    Weighted towards the classes the unchanged code handles (float64 / int64 forecasts; float observations for the
+    quantile / custom-solver path) — the three defect classes of notes/C15.md stay present (~35 %)"""
+    ints = ["int64", "int64", "int32", "int8", "int16", "uint8", "uint16"]
+    anyd = ints + ["float64", "float64", "float32", "float32"]
+    fpool = ["float64"] * 4 + ["int64"] * 3 + ["float32", "int32", "int8", "uint8", "int16"]
+    opool = ints + ["float32", "float32", "float64"] if kind == "mean" else \
+        ["float32"] * 3 + ["float64"] * 3 + ["int64", "int32", "int8", "uint8"]
+    r = rng.random()
+    if r < 0.2:
+        u = rng.choice(ints + ["float32", "float32"]) if kind == "mean" else rng.choice(["float32", "float32", "int64", "int32"])
+        d = {"f": u, "o": u, "w": u}
+    elif r < 0.5:
+        d = {"f": rng.choice(["float64", "float64", "float64", "float32"]), "o": rng.choice(opool), "w": rng.choice(anyd)}
+    else:
+        d = {"f": rng.choice(fpool), "o": rng.choice(opool), "w": rng.choice(anyd)}
+    if rng.random() < 0.05:
+        d[rng.choice(["f", "o", "o", "w"] if weighted else ["f", "o", "o"])] = "bool"
+    return d
+
+
+def gen_events_case(rng, kind="mean", boots=False):
+    """reliability-diagram use: probability forecasts k/8 (heavy ties) of a 0/1 event stored as an integer array"""
+    n = rng.choice([2, 3, 4, 6, 8, 12, 16, 30])
+    f = [rng.randint(0, 8) / 8 for _ in range(n)]
+    o = [1.0 if rng.random() < 0.2 + 0.6 * x else 0.0 for x in f]
+    w = [float(rng.choice([1, 1, 2, 3])) for _ in range(n)] if kind != "quantile" and rng.random() < 0.3 else None
+    if rng.random() < 0.3:
+        f = [NAN if rng.random() < 0.2 else x for x in f]
+    d = {"f": rng.choice(["float64"] * 4 + ["float32"]), "o": rng.choice(["int64", "int64", "int32", "int8", "uint8", "int16"]),
+         "w": rng.choice(["float64", "int64", "int8", "float32"])}
+    facts = [(a, n // a) for a in range(1, n + 1) if n % a == 0]
+    shape = list(rng.choice(facts)) if rng.random() < 0.4 else [n]
+    return mk_case(f, o, w, kind, rng.choice(DYADIC_Q), shape, rng.choice(["numpy", "numpy", "xarray"]), None,
+                   rng.choice([1, 2, 3, 5, 8]) if boots else None, rng.randint(0, 10 ** 6), rng.choice([0.5, 0.75, 0.9]), 1, None, d)
+
+
+def gen_case(rng, kinds, big=False, boots=False, dtypes=None):
     n = rng.choice([1, 2, 2, 3, 4, 5, 6, 8, 12]) if not big else rng.randint(15, 60)
     cube = None
     if rng.random() < (0.2 if not big else 0.3):        # square / cubic shapes: a positional mix-up passes every shape check
@@ -271,6 +450,13 @@ def gen_case(rng, kinds, big=False, boots=False):
             w[i] = NAN
     if rng.random() < 0.03:
         f = [NAN] * n                                   # nothing valid: ValueError expected
+    # storage dtypes (dtypes=None: 35 % of the cases; True: always; False: never — every operand float64)
+    dts = None
+    if dtypes or (dtypes is None and rng.random() < 0.35):
+        dts = gen_dtypes(rng, w is not None, kind)
+        f = store_as(rng, f, dts["f"], den)
+        o = store_as(rng, o, dts["o"], den)
+        w = None if w is None else store_as(rng, w, dts["w"], den, weight=True)
     q = rng.choice(DYADIC_Q)
     # shape / container
     shape = [n]
@@ -305,12 +491,12 @@ def gen_case(rng, kinds, big=False, boots=False):
         layout = {"f": gen_layout(rng, len(shape)), "o": gen_layout(rng, len(shape)), "w": gen_layout(rng, len(shape))}
         if rng.random() < 0.15:
             layout["o"] = layout["w"] = layout["f"]        # one shared non-C layout
-    return mk_case(f, o, w, kind, q, shape, container, perm, b, seed, conf, mnn, layout)
+    return mk_case(f, o, w, kind, q, shape, container, perm, b, seed, conf, mnn, layout, dts)
 
 
 def describe(case):
     return {k: case[k] for k in ("fcst", "obs", "weight", "kind", "q", "shape", "container", "bootstraps", "seed", "confidence",
-                                 "min_non_nan")} | {"layout": case.get("layout")}
+                                 "min_non_nan")} | {"layout": case.get("layout"), "dtypes": case.get("dtypes")}
 
 
 def tag_case(ctx, case):
@@ -319,6 +505,9 @@ def tag_case(ctx, case):
     ctx.tag("container:" + case["container"])
     ctx.tag("ndim:%d" % len(case["shape"]))
     ctx.tag(layout_class(case))
+    ctx.tag(dtype_class(case))
+    if case.get("dtypes"):
+        ctx.tag("obs-dtype:" + dtype_of(case, "o"))
     if len(case["shape"]) > 1 and len(set(case["shape"])) == 1 and case["shape"][0] > 1:
         ctx.tag("shape:square")
     ctx.tag("weights" if case["weight"] is not None else "no-weights")
@@ -331,8 +520,16 @@ def tag_case(ctx, case):
 
 
 # ------------------------------------------------------------------------------------------------ comparisons
-def cmp_lists(a, b):
-    return len(a) == len(b) and all(core.close(x, y) for x, y in zip(a, b))
+def _at(tol):
+    return 1e-12 if tol <= 1e-9 else tol
+
+
+def cmp_lists(a, b, tol=1e-9):
+    return len(a) == len(b) and all(core.close(x, y, rtol=tol, atol=_at(tol)) for x, y in zip(a, b))
+
+
+def has_bool(case):
+    return any(dtype_of(case, k) == "bool" for k in (["f", "o"] + (["w"] if case["weight"] is not None else [])))
 
 
 def tie_last_index(sorted_f):
@@ -355,6 +552,7 @@ def correspondence(ctx):
     kinds = ["mean", "mean", "quantile", "quantile"] + IDEMPOTENT
     cases = [gen_case(rng, kinds) for _ in range(ctx.n(500, 6000))]
     cases += [gen_case(rng, kinds, big=True) for _ in range(ctx.n(30, 300))]
+    cases += [gen_events_case(rng, rng.choice(["mean"] * 5 + ["quantile", "median", "wmean"])) for _ in range(ctx.n(60, 600))]
     cases += corpus_cases()
     impl = [run_impl(c) for c in cases]
     model = core.run_driver("C15", [fit_op(c) for c in cases])
@@ -362,18 +560,25 @@ def correspondence(ctx):
     for c, r, m in zip(cases, impl, model):
         vp = tag_case(ctx, c)
         ctx.case("impl-vs-model-fit", describe(c), nontrivial=len(vp) >= 2)
+        tol = tol_of(c)
+        if dtype_defect(c):
+            ctx.tag("dtype-defect-class:oracle-only")
+            continue
+        if has_bool(c) and r.get("err") == "ValueError":
+            ctx.tag("bool-operand-rejected")             # documented rejection; the model has values only, no dtypes
+            continue
         if "err" in r or "err" in m:
             if ("err" in r) != ("err" in m) or (r.get("err") != m.get("err")):
                 ctx.fail("impl-vs-model-fit", "correspondence", "isotonic_fit", "exception-differs", describe(c),
-                         observed=r.get("err", "a value"), expected=m.get("err", "a value"), tags={"kind": c["kind"]})
+                         observed=r.get("err", "a value"), expected=m.get("err", "a value"), tags=case_tags(c))
             continue
         for key in ("fcst_sorted", "regression_values"):
-            if not cmp_lists(r[key], m[key]):
+            if not cmp_lists(r[key], m[key], tol if key == "regression_values" else 1e-9):
                 ctx.fail("impl-vs-model-fit", "correspondence", "isotonic_fit", key + "-differs", describe(c),
-                         observed=r[key], expected=m[key], tags={"kind": c["kind"]})
+                         observed=r[key], expected=m[key], tags=case_tags(c))
         if r["fcst_counts"] != m["fcst_counts"]:
             ctx.fail("impl-vs-model-fit", "correspondence", "isotonic_fit", "fcst_counts-differs", describe(c),
-                     observed=r["fcst_counts"], expected=m["fcst_counts"], tags={"kind": c["kind"]})
+                     observed=r["fcst_counts"], expected=m["fcst_counts"], tags=case_tags(c))
         # regression_func at and between the distinct forecasts, and outside the range
         if rng.random() < 0.5:
             xs = r["fcst_sorted"]
@@ -389,15 +594,15 @@ def correspondence(ctx):
             with np.errstate(all="ignore"):
                 got = [float(x) for x in full["raw"]["regression_func"](np.array(at, dtype=float))]
             ctx.case("regression_func-vs-model-interp", {"case": describe(c), "at": at}, nontrivial=len(at) > 3)
-            if not cmp_lists(got, mr):
+            if not cmp_lists(got, mr, tol_of(c)):
                 ctx.fail("regression_func-vs-model-interp", "correspondence", "regression_func", "value-differs",
-                         {"case": describe(c), "at": at}, observed=got, expected=mr, tags={"kind": c["kind"]})
+                         {"case": describe(c), "at": at}, observed=got, expected=mr, tags=case_tags(c))
     # confidence band arithmetic on the bootstrap matrix the implementation reports
     bcases = [gen_case(rng, ["mean", "mean", "quantile", "median", "max", "wmean"], boots=True) for _ in range(ctx.n(120, 1500))]
     ops, meta = [], []
     for c in bcases:
         r = run_impl(c)
-        if "err" in r:
+        if "err" in r or dtype_defect(c):
             continue
         rows = [[core.fl_str(x) for x in row] for row in r["boot"].tolist()]
         ops.append({"op": "c15.band", "args": {"rows": rows, "ncol": int(r["boot"].shape[1]), "confidence": core.fl_str(c["confidence"]),
@@ -412,12 +617,12 @@ def correspondence(ctx):
         for key in ("lower", "upper"):
             if last and last[-1] >= len(m[key]):          # the code kept another set of pairs than the documented one
                 ctx.fail("confidence-band-vs-model", "correspondence", "_confidence_band", key + "-length-differs", describe(c),
-                         observed=len(m[key]), expected=last[-1] + 1, tags={"kind": c["kind"]})
+                         observed=len(m[key]), expected=last[-1] + 1, tags=case_tags(c))
                 continue
             exp = [m[key][i] for i in last]
             if not cmp_lists(r[key], exp):
                 ctx.fail("confidence-band-vs-model", "correspondence", "_confidence_band", key + "-differs", describe(c),
-                         observed=r[key], expected=exp, tags={"kind": c["kind"]})
+                         observed=r[key], expected=exp, tags=case_tags(c))
 
 
 # ------------------------------------------------------------------------------------------------ the property itself
@@ -439,7 +644,10 @@ def check_property(case, r, spec=None, rerun=None):
     bad = []
     vp = valid_pairs(case)
     kind = case["kind"]
-    tags = {"kind": kind, "container": case["container"]}
+    tags = case_tags(case)
+    tol = tol_of(case)
+    if has_bool(case) and r.get("err") == "ValueError":
+        return bad                                      # documented: a bool array is "not an integer, float or NaN" (else: the exact fit)
     if not vp:
         if r.get("err") != "ValueError":
             bad.append(("isotonic_fit", "no-valid-pairs-not-rejected", r.get("err", "a value"), "ValueError", tags))
@@ -468,7 +676,7 @@ def check_property(case, r, spec=None, rerun=None):
             bad.append(("isotonic_fit", "fit-not-monotone", vals, "non-decreasing", tags))
             break
     if kind == "mean":
-        if spec is not None and not cmp_lists(vals, spec["regression_values"]):
+        if spec is not None and not cmp_lists(vals, spec["regression_values"], tol):
             bad.append(("isotonic_fit", "not-the-least-squares-fit", vals, spec["regression_values"], tags))
         lo, hi = min(p[1] for p in vp), max(p[1] for p in vp)
         if any(v < lo - 1e-9 or v > hi + 1e-9 for v in vals):
@@ -488,7 +696,7 @@ def check_property(case, r, spec=None, rerun=None):
         for (i, j) in blocks_of(vals):
             members = [p for p in tid if us[i] <= p[0] <= us[j - 1]]
             exp = solve([p[1] for p in members], [p[2] for p in members])
-            if not core.close_ff(vals[i], exp):
+            if not core.close_ff(vals[i], exp, rtol=tol, atol=_at(tol)):
                 bad.append(("isotonic_fit", "block-value-not-solver-of-block", vals[i], exp, tags))
                 break
     # invariance under order / shape / container, and NaN pairs ignored
@@ -497,7 +705,8 @@ def check_property(case, r, spec=None, rerun=None):
             r2 = rerun(c2)
             if "err" in r2 or not (cmp_lists(r2["fcst_sorted"], [Fraction(x) for x in r["fcst_sorted"]])
                                    and r2["fcst_counts"] == r["fcst_counts"]
-                                   and all(core.close_ff(a, b) for a, b in zip(r2["regression_values"], vals))
+                                   and all(core.close_ff(a, b, rtol=tol, atol=_at(tol))
+                                           for a, b in zip(r2["regression_values"], vals))
                                    and len(r2["regression_values"]) == len(vals)):
                 bad.append(("isotonic_fit", "result-changes-under-" + name, r2.get("regression_values", r2.get("err")), vals,
                             dict(tags, variant=c2)))
@@ -525,6 +734,16 @@ def check_property(case, r, spec=None, rerun=None):
             r0 = rerun(c0)
             if "err" in r0 or not cmp_lists(vals, [Fraction(x) for x in r0["regression_values"]]):
                 bad.append(("isotonic_fit", "fit-changes-with-bootstraps", vals, r0.get("regression_values"), tags))
+            if case.get("dtypes"):
+                # storage-dtype invariance of the resampled fits: the same values stored as float64, the same seed
+                r3 = rerun(dict(case, dtypes=None))
+                same = ("err" not in r3 and r3["boot"].shape == r["boot"].shape
+                        and np.allclose(r3["boot"], r["boot"], rtol=tol, atol=tol, equal_nan=True)
+                        and np.allclose(np.array(r3["lower"]), np.array(lowr), rtol=tol, atol=tol, equal_nan=True)
+                        and np.allclose(np.array(r3["upper"]), np.array(upr), rtol=tol, atol=tol, equal_nan=True))
+                if not same:
+                    bad.append(("isotonic_fit", "bootstrap-fits-change-under-float64-copies",
+                                r["boot"].tolist()[:3], None if "err" in r3 else r3["boot"].tolist()[:3], tags))
     return bad
 
 
@@ -544,6 +763,9 @@ def variants(case):
     # the same container / shape / dims, every operand a fresh C-contiguous array
     if case.get("layout"):
         out.append(("c-contiguous-copies", dict(case, bootstraps=None, layout=None)))
+    # the same container / shape / layout, every operand holding the same values as float64
+    if case.get("dtypes"):
+        out.append(("float64-copies", dict(case, bootstraps=None, dtypes=None)))
     # valid pairs only / extra NaN pairs
     vp = valid_pairs(case)
     if vp:
@@ -551,8 +773,13 @@ def variants(case):
                   weight=None if case["weight"] is None else [p[2] for p in vp], shape=[len(vp)], container="numpy", perm=None,
                   bootstraps=None, layout=None)
         out.append(("dropping-nan-pairs", c3))
+        d4 = None
+        if case.get("dtypes"):                          # the two operands that receive a NaN need a float dtype
+            d4 = dict(case["dtypes"])
+            for k in ("f", "o"):
+                d4[k] = d4[k] if d4[k] in FLOAT_DTYPES else "float64"
         c4 = dict(c3, fcst=c3["fcst"] + [NAN, 1.0], obs=c3["obs"] + [2.0, NAN],
-                  weight=None if c3["weight"] is None else c3["weight"] + [1.0, 1.0], shape=[len(vp) + 2])
+                  weight=None if c3["weight"] is None else c3["weight"] + [1.0, 1.0], shape=[len(vp) + 2], dtypes=d4)
         out.append(("adding-nan-pairs", c4))
     return out
 
@@ -598,6 +825,19 @@ def enum_cases(maxlen, weighted_len):
                         yield mk_case(f, o, list(ws))
 
 
+ENUM_DTYPES = [{"f": "float64", "o": "int64", "w": "float64"}, {"f": "int64", "o": "int64", "w": "int64"},
+               {"f": "float64", "o": "int8", "w": "int32"}, {"f": "int32", "o": "int32", "w": "float32"},
+               {"f": "float32", "o": "float32", "w": "float32"}, {"f": "float64", "o": "uint8", "w": "uint8"},
+               {"f": "int8", "o": "float64", "w": "int8"}, {"f": "float32", "o": "int16", "w": "float64"}]
+
+
+def enum_dtype_cases(maxlen, weighted_len):
+    """the same finite space as enum_cases (all its values are small non-negative integers), every sequence stored once
+    with integer / float32 / mixed dtypes (the dtype combination cycles through ENUM_DTYPES)"""
+    for i, c in enumerate(enum_cases(maxlen, weighted_len)):
+        yield dict(c, dtypes=dict(ENUM_DTYPES[i % len(ENUM_DTYPES)]))
+
+
 def report(ctx, batch, case, bad):
     for site, sig, obs_, exp, tags in bad:
         ctx.fail(batch, "property", site, sig, describe(case) | {"perm": case.get("perm")}, observed=obs_, expected=exp, tags=tags)
@@ -616,6 +856,20 @@ def oracle(ctx, boost):
         r = run_impl(c)
         ctx.case("mean-vs-maxmin-exhaustive", describe(c), nontrivial=len(c["fcst"]) >= 2)
         report(ctx, "mean-vs-maxmin-exhaustive", c, check_property(c, r, spec=s))
+    # 1b. the same space with every operand stored in an integer / float32 / mixed dtype: the values, hence the expected
+    #     fit, are those of the float64 case (block means are non-integers in most of them)
+    dcases = list(enum_dtype_cases(L, min(WL, 2)))
+    ctx.exhaustive.append(f"storage dtypes: all (fcst,obs) sequences of length <= {L} over the 3x3-value pool (weights {{1,3}} up to length "
+                          f"{min(WL, 2)}) stored as int64 / int32 / int16 / int8 / uint8 / float32 / mixed arrays, mean functional vs max-min "
+                          f"formula ({len(dcases)} cases)")
+    dspecs = core.run_driver("C15", [spec_op(c) for c in dcases])
+    for c, s in zip(dcases, dspecs):
+        r = run_impl(c)
+        ctx.tag(dtype_class(c))
+        ctx.tag("dtype-enum:non-integer-block-mean" if any(Fraction(core.parse_fl(v)).denominator != 1 for v in s["regression_values"])
+                else "dtype-enum:integer-block-means")
+        ctx.case("mean-vs-maxmin-dtypes-exhaustive", describe(c), nontrivial=len(c["fcst"]) >= 2)
+        report(ctx, "mean-vs-maxmin-dtypes-exhaustive", c, check_property(c, r, spec=s))
     # 2. random cases: mean vs max-min + every relational clause
     kinds = ["mean"] * 6 + ["quantile"] * 3 + IDEMPOTENT
     cases = corpus_cases() + [gen_case(rng, kinds) for _ in range(ctx.n(400, 5000) * mult)]
@@ -625,6 +879,11 @@ def oracle(ctx, boost):
         c = gen_case(rng, ["quantile"])
         c["q"] = rng.choice(ANY_Q)
         cases.append(c)
+    # storage dtypes: integer counts / 0-1 events / float32 / mixed operands (always), for every functional
+    cases += [gen_case(rng, ["mean"] * 4 + kinds, dtypes=True) for _ in range(ctx.n(500, 6000) * mult)]
+    cases += [gen_case(rng, ["mean"], big=True, dtypes=True) for _ in range(ctx.n(10, 100) * mult)]
+    cases += [gen_events_case(rng, rng.choice(["mean"] * 6 + ["quantile", "median", "wmean", "max"]))
+              for _ in range(ctx.n(200, 2500) * mult)]
     cases = [c for c in cases if c["kind"] in IDEMPOTENT + ["mean", "quantile"]]
     specs = core.run_driver("C15", [spec_op(c) for c in cases])
     for c, s in zip(cases, specs):
@@ -638,12 +897,23 @@ def oracle(ctx, boost):
         r = run_impl(c)
         ctx.case("bootstrap-band", describe(c), nontrivial=len(valid_pairs(c)) >= 2)
         report(ctx, "bootstrap-band", c, check_property(c, r, rerun=run_impl))
+    # 3b. bootstrap with integer / float32 / mixed storage: in addition the resampled fits and the band must be those of
+    #     the float64 copies for the same seed; the fit itself against the max-min formula
+    bcases = [gen_case(rng, ["mean", "mean", "mean", "quantile", "median", "wmean"], boots=True, dtypes=True) for _ in range(ctx.n(100, 1200) * mult)]
+    bcases += [gen_events_case(rng, rng.choice(["mean"] * 5 + ["quantile", "wmean"]), boots=True) for _ in range(ctx.n(60, 700) * mult)]
+    bspecs = core.run_driver("C15", [spec_op(c) for c in bcases])
+    for c, s in zip(bcases, bspecs):
+        r = run_impl(c)
+        ctx.tag("bootstrap-" + dtype_class(c))
+        ctx.case("bootstrap-band-dtypes", describe(c), nontrivial=len(valid_pairs(c)) >= 2)
+        report(ctx, "bootstrap-band-dtypes", c, check_property(c, r, spec=s if c["kind"] == "mean" else None, rerun=run_impl))
 
 
 def replay(ctx, payload):
     case = payload["case"]
     case.setdefault("perm", None)
     case.setdefault("layout", None)
+    case.setdefault("dtypes", None)
     for k in ("fcst", "obs", "weight"):                  # the recorded payload spells NaN as the string "nan"
         if case.get(k) is not None:
             case[k] = [float(x) for x in case[k]]
